@@ -388,3 +388,7 @@ func Texts(t *rapid.T, s *Spec, n int) [][]byte {
 	}
 	return out
 }
+
+// GenClassAny / GenLitAny expose the class and literal generators.
+func GenClassAny(t *rapid.T) *Expr { return genClass(t, &genState{}) }
+func GenLitAny(t *rapid.T) *Expr   { return genLit(t, &genState{}) }
